@@ -445,7 +445,34 @@ func ruleReadFull(p *Prog, r *RuleResult) {
 		}
 		atom, pos := condAtom(ifi.Cond)
 		bo, ok := atom.(*ssa.BinOp)
-		if !ok || !isZeroConst(bo.Y) {
+		if !ok {
+			continue
+		}
+		// the other spelling of "the caller's buffer is full": a count of copied bytes compared with len(block)
+		isLen := func(v ssa.Value) bool {
+			for _, l := range lens {
+				if v == l {
+					return true
+				}
+			}
+			return false
+		}
+		if isLen(bo.X) != isLen(bo.Y) && isIntType(bo.X.Type()) {
+			op := bo.Op
+			if isLen(bo.X) {
+				op = mirrorOp(op)
+			}
+			switch op { // counter <op> len(block)
+			case token.LSS, token.NEQ:
+				cut[edge{b, succFor(pos, false)}] = true
+				nfull++
+			case token.GEQ, token.EQL:
+				cut[edge{b, succFor(pos, true)}] = true
+				nfull++
+			}
+			continue
+		}
+		if !isZeroConst(bo.Y) {
 			continue
 		}
 		if fam[bo.X] {
